@@ -167,6 +167,9 @@ MUTANTS = [
      "                    write_ics = True\n                    adj_deps = False\n                    snapshots.add((w_storage, w_n0))",
      "                    write_ics = False\n                    adj_deps = False\n                    snapshots.add((w_storage, w_n0))",
      ["hrevolve.RevolveCheckpointSchedule._iterator"], "cost_so_far"),
+    ("multistage_reused_unit_not_counted", "checkpoint_schedules/multistage.py",
+     "                               - len(snapshots) + 1)", "                               - len(snapshots))",
+     ["multistage.MultistageCheckpointSchedule._iterator"], "potential"),
 ]
 
 
